@@ -414,7 +414,7 @@ func (w *World) mint(fn, exec, leaf, elem int, t int, poison bool, inputs []int6
 
 // flattenCount is the number of elements execution exec of fn returns for a
 // flatten result leaf: a fixed function of (fn, leaf), 0..3.
-func flattenCount(fn, leaf int) int { return int(uint64(mix64(int64(fn), int64(leaf))) % 4) }
+func flattenCount(salt int64, leaf int) int { return int(uint64(mix64(salt, int64(leaf))) % 4) }
 
 type mintCtx struct {
 	f      *Func
@@ -464,7 +464,7 @@ func (w *World) buildResult(c *mintCtx, r Result, rt reflect.Type, top bool) ref
 			}
 		}
 		if rt.Kind() == reflect.Slice {
-			n := flattenCount(f.ID, leaf)
+			n := flattenCount(f.Salt, leaf)
 			in := w.inputsFor(c, key)
 			if f.Role == RoleDec {
 				// a decorated group: keep the cardinality observable and
